@@ -61,6 +61,27 @@ def inScopeA (i : Input) : Bool :=
   i.hist.all Call.ok && adaptLeaves i.shape &&
   (!(hasText i.shape || Spec.C17.Shape.hasE2s i.shape) || i.hist.head? == some .startTestRun)
 
+mutual
+/-- the leaves whose `shouldStop` is cleared by `startTestRun`: testtools' own results; and — the flag then lives in the
+`ExtendedToOriginalDecorator`, which clears it with its tag context at `startTestRun` — results of a flavour without
+`stop` / `shouldStop` (Twisted), with or without a `failfast` attribute assigned on them.  (A 2.6 / 2.7 style result
+owns its `shouldStop` and is never told that a new run begins: nothing testtools could clear.) -/
+def resetLeaves : Shape → Bool
+  | .tt _ | .text _ | .sff => true
+  | .sink _ | .fsink _ _ _ | .tbt => false
+  | .etod c => if (caps c).shouldStop then resetLeaves c else true
+  | .deco c | .tagger _ _ c | .tfr c | .e2s c => resetLeaves c
+  | .multi cs => resetLeavesL cs
+def resetLeavesL : List Shape → Bool
+  | [] => true
+  | c :: cs => resetLeaves c && resetLeavesL cs
+end
+
+/-- the scope of `not-earlier` -/
+def inScopeN (i : Input) : Bool :=
+  i.hist.all Call.ok && resetLeaves i.shape &&
+  (!(hasText i.shape || Spec.C17.Shape.hasE2s i.shape) || i.hist.head? == some .startTestRun)
+
 /-! ### verdict -/
 /-- after each call: no error, failure or unexpected success since the last `startTestRun` -/
 def verdicts : Bool → List Call → List Bool
@@ -156,7 +177,9 @@ def sticky : Bool → List Call → List Obs → Bool
 def cSticky (i : Input) (t : Trace) : Bool :=
   !inScopeA i || sticky false i.hist t.obs
 
-/-- not earlier: `shouldStop` only after a `stop()`, or after an error / failure / unexpected success when
+/-- not earlier (scope `inScopeN`: every flag `shouldStop` reads is cleared by `startTestRun` — own results, stream
+decorators, and the `ExtendedToOriginalDecorator`'s own flag over a Twisted-style result; not a 2.6 / 2.7 style
+result's own `shouldStop`): `shouldStop` only after a `stop()`, or after an error / failure / unexpected success when
 fail-fast was set somewhere (on a leaf before wrapping, or by an assignment), since the last `startTestRun` -/
 def notEarlier (ffEver : Bool) (reason : Bool) : List Call → List Obs → Bool
   | [], [] => true
@@ -170,7 +193,7 @@ def notEarlier (ffEver : Bool) (reason : Bool) : List Call → List Obs → Bool
   | _, _ => false
 
 def cNotEarlier (i : Input) (t : Trace) : Bool :=
-  !inScope i || notEarlier ((leafParams i.shape).any id) false i.hist t.obs
+  !inScopeN i || notEarlier ((leafParams i.shape).any id) false i.hist t.obs
 
 /-- `stop()` reaches every underlying result -/
 def stopReaches : List Call → List Obs → Bool
